@@ -47,7 +47,7 @@ type c40iCase struct {
 	Amount  int64  `json:"amount"`
 }
 
-var cbBehaviours = []string{"ok", "ok", "err", "panic", "oog", "oogerr"}
+var cbBehaviours = []string{"ok", "ok", "err", "panic", "oog", "oogerr", "oognil"}
 
 func genC40i(t *rapid.T) c40iCase {
 	c := c40iCase{Amount: rapid.Int64Range(1, 1000).Draw(t, "amount")}
@@ -76,7 +76,7 @@ func genC40i(t *rapid.T) c40iCase {
 		if rapid.IntRange(0, 3).Draw(t, "lowAim") > 0 {
 			c.UserGas = rapid.SampledFrom([]uint64{0, cbMaxGas, 2 * cbMaxGas, 900_000}).Draw(t, "lowUserGas")
 			c.LowGas = rapid.Uint64Range(150_000, 850_000).Draw(t, "lowGasAimed")
-			c.Src = rapid.SampledFrom([]string{"oog", "oog", "oogerr", "ok", "err", "panic"}).Draw(t, "lowSrc")
+			c.Src = rapid.SampledFrom([]string{"oog", "oog", "oogerr", "oognil", "ok", "err", "panic"}).Draw(t, "lowSrc")
 		}
 	}
 	return c
@@ -107,10 +107,14 @@ func installContract(w *cbWorld, chainIdx int, beh map[cbtypes.CallbackType]stri
 			panic("contract panic")
 		case "oog":
 			ctx.GasMeter().ConsumeGas(ctx.GasMeter().GasRemaining()+1, "contract burns all gas")
-		case "oogerr":
+		case "oogerr", "oognil":
+			swallowToNil := beh[typ] == "oognil"
 			defer func() {
 				if r := recover(); r != nil {
 					err = errors.New("contract ran out of gas")
+					if swallowToNil {
+						err = nil // burns all gas, swallows the panic, reports success
+					}
 				}
 			}()
 			ctx.GasMeter().ConsumeGas(ctx.GasMeter().GasRemaining()+1, "contract burns all gas")
@@ -224,7 +228,7 @@ func (r *c40iRun) srcTx(kind string, typ cbtypes.CallbackType, build func() sdk.
 			if after := snapshot(); after != before {
 				vx.Violatef(r.t, r.rec, c40, "aborted-tx-changed-state", "failed %s transaction (gas %d) changed state: %s -> %s", kind, r.c.LowGas, before, after)
 			}
-			if short && (r.c.Src == "oog" || r.c.Src == "oogerr") {
+			if short && (r.c.Src == "oog" || r.c.Src == "oogerr" || r.c.Src == "oognil") {
 				r.rec.Class("retry-abort-then-retry")
 			}
 			// retry with enough gas
@@ -232,7 +236,7 @@ func (r *c40iRun) srcTx(kind string, typ cbtypes.CallbackType, build func() sdk.
 			return r.w.deliver(r.w.A, 0, build()), true
 		}
 		r.rec.Add("lowgas_tx_ok", 1)
-		if short && (r.c.Src == "oog" || r.c.Src == "oogerr") {
+		if short && (r.c.Src == "oog" || r.c.Src == "oogerr" || r.c.Src == "oognil") {
 			vx.Violatef(r.t, r.rec, c40, "retry-oog-did-not-abort", "%s callback ran out of gas under execLimit %d < commit %d (tx gas %d) but the transaction was committed", kind, limits[0], commit, r.c.LowGas)
 		}
 		return tx, false
@@ -523,7 +527,7 @@ func runC40i(outer *testing.T) func(rapid.TB, c40iCase, *vx.Case) {
 func TestC40Transfer(t *testing.T) {
 	vx.Check(t, vx.Prop[c40iCase]{
 		ID:        "C40",
-		Rule:      "one ICS-20 transfer (v1 channel or IBC v2) with src_callback / dest_callback memos on the callbacks test app; scripted contracts (ok/error/panic/burn-all-gas/burn-and-swallow) per callback type; paths success-ack, app error-ack, dest-callback failure, timeout; user gas_limit absent/below/at/above the chain max; optional first ack/timeout attempt with a low transaction gas limit; non-trivial = a failing source or destination callback, or a low-gas attempt; distinct by full case",
+		Rule:      "one ICS-20 transfer (v1 channel or IBC v2) with src_callback / dest_callback memos on the callbacks test app; scripted contracts (ok/error/panic/burn-all-gas/burn-and-swallow-to-error/burn-and-swallow-to-success) per callback type; paths success-ack, app error-ack, dest-callback failure, timeout; user gas_limit absent/below/at/above the chain max; optional first ack/timeout attempt with a low transaction gas limit; non-trivial = a failing source or destination callback, or a low-gas attempt; distinct by full case",
 		MinNTFrac: 0.4,
 		Gen:       genC40i,
 		Run:       runC40i(t),
